@@ -35,3 +35,11 @@ Theorem C20_empty_dictionary_passes_through : forall c z osc, zentries (zc_chord
   snd (z_press c z osc) = [ZP osc] /\ snd (z_release c z osc) = [ZR osc].
 Proof. exact empty_dictionary_passes. Qed.
 Print Assumptions C20_empty_dictionary_passes_through.
+
+(* a whole typing session: holds that each end with a completed chord, every key released (in any order) before the
+   next hold; the text is what was there before followed by the expansion of each hold in turn *)
+Theorem C20_session_leaves_the_expansions : forall c, zc_ss c <> 2%N -> zentries (zc_chords c) <> [] -> forall holds z,
+  Inv z [] -> z_keys z = [] -> Forall (hold_wf c) holds ->
+  forall base, trun base (snd (session_run c z holds)) = base ++ session_text c holds.
+Proof. exact session_leaves_the_expansions. Qed.
+Print Assumptions C20_session_leaves_the_expansions.
